@@ -1189,7 +1189,7 @@ def decision_equal(t1, t2, max_atoms=6, post=None, nan=True):
                         return (False, desc + ' (e.g. at ' + show_env(env) + ')', mine[0][1], mine[0][2])
         # a separation that depends on several comparisons: look for an explicit rational point that realises one separated row
         # (every comparison of the row holds there exactly and the two results, evaluated exactly, differ)
-        if all(at[0] == 'pair' for at in atoms):
+        if atoms and all(at[0] == 'pair' for at in atoms):
             for vals, a, b in seps[:24]:
                 if any(v == 'uno' for v in vals) or not transparent(a - b):
                     continue
